@@ -24,7 +24,8 @@ CHECKS = {
             'position for attribute/item/arithmetic failures, and that nothing right of the first failure is evaluated '
             '(side-effecting nested arguments).',
             'Trusted: vf/texpr.py ref_eval. Bounds: <= 7 operations, small integer operands, exponent <= 3. Failing call '
-            'steps and exotic exception classes: only class preservation is asserted (DESIGN.md section 6).',
+            'steps: only class preservation is asserted (DESIGN.md section 6); unusual error classes of item / slice / arithmetic '
+            'steps must surface as PathAccessError with the position (finding F76).',
             'DESIGN.md section 4 / C02'),
     'C18': ('Hypothesis-generated T/Path recipes with eval(repr) and pickle round-trips compared on repr, operation tuple and '
             'outcome over a battery of targets; Path-as-sequence laws vs the tuple of steps; exhaustive itertools '
@@ -33,7 +34,7 @@ CHECKS = {
             'index/slice domain (n <= 4 quick, n <= 6 thorough, T and S roots). The round-trip compares operation tuples '
             'and evaluation, not just repr strings, so a repr that drops information is caught even if it is stable.',
             'Trusted: Python eval/pickle, tuple slicing as the reference for Path slicing, vf/texpr.py builders. '
-            'Not generated: arithmetic steps, lambdas, non-finite floats, S-rooted wildcards (DESIGN.md F20); Path(p, q) with '
+            'Not generated: arithmetic steps, lambdas, complex numbers, S-rooted wildcards (DESIGN.md F20); Path(p, q) with '
             'an S-rooted Path p is exercised as Path(p.path_t, q). Bounds: <= 6 steps, literals nested <= 2.',
             'DESIGN.md section 4 / C18'),
     'C09': ('Hypothesis-generated pattern recipes with targets derived from the pattern, one-edit mutations and unrelated '
@@ -52,8 +53,8 @@ CHECKS = {
             'Generated-input search with an exact boolean reference: pass/fail, yielded value (last child of And, first '
             'passing child of Or, target for Not), default handling, rejection class, evaluation log equality '
             '(no later Or child / Switch case evaluated), CheckError listing every failed condition.',
-            'Trusted: refbool() and the Check reference in vf/props/c10.py. Comparisons that raise in Python must raise the '
-            'same class from glom. Validators are total predicates; reflected operands (x & M-expr) are not generated. '
+            'Trusted: refbool() and the Check reference in vf/props/c10.py. A comparison that raises in Python, or whose result '
+            'has no truth value, is a rejection by MatchError (findings F58, F94). Validators are total predicates. '
             'Bounds: tree depth <= 4, <= 3 children, <= 4 Switch cases.',
             'DESIGN.md section 4 / C10'),
     'C14': ('Hypothesis-generated object graphs (shared nodes, cycles, raising containers) and wildcard paths in three '
